@@ -59,6 +59,36 @@ class Ctx(object):
     self.floors.append((name, found, required))
   def analysed (self, f):
     self.functions.add(f if isinstance(f, str) else f.qual)
+  def include (self, prop, constructs, why=''):
+    """Properties share mechanisms: the obligations another property's check states about the functions named in `constructs`
+    (substring of the obligation's construct) are obligations of this property too.  The other check is run on the same parsed
+    repository in a sub-context; includes do not nest.  An anchor that check no longer finds gives an UNDECIDED obligation here
+    (its own check reports it), never an alarm."""
+    if getattr(self, '_included', False): return 0
+    import importlib
+    from .model import AnalysisError
+    cache = getattr(self.repo, '_include_cache', None)
+    if cache is None: cache = self.repo._include_cache = {}
+    if prop not in cache:
+      sub = Ctx(prop, self.repo, self.tier, self.seed); sub._included = True
+      try:
+        importlib.import_module('pxa.checks.c%s' % prop[1:].lower()).run(sub); sub._error = None
+      except AnalysisError as e: sub._error = str(e)
+      except Exception as e: sub._error = "%s: %s" % (type(e).__name__, e)
+      cache[prop] = sub
+    sub = cache[prop]
+    n = 0
+    for o in sub.obs:
+      if any(c in o.construct for c in constructs):
+        o2 = Obligation(o.rule, o.construct, o.detail + " [rule of %s%s]" % (prop, (': ' + why) if why else ''), o.verdict, o.reason, o.file, o.line, o.clause, o.path)
+        self.obs.append(o2); n += 1
+    for c in constructs:
+      for fq in sub.functions:
+        if c in fq: self.functions.add(fq)
+    if sub._error and not n:
+      self.undecided('R-SIB', "%s (shared)" % prop, "rules of %s about %s" % (prop, ', '.join(constructs)), "that check could not be carried out here: %s" % sub._error)
+    self.stat('obligations shared from other properties', n)
+    return n
   def stat (self, k, n=1):
     self.stats[k] = self.stats.get(k, 0) + n
 
